@@ -1,6 +1,7 @@
 package main
 
 import (
+	"bytes"
 	"fmt"
 )
 
@@ -98,6 +99,41 @@ func runC15(c *runCfg) error {
 	rounds := 60
 	if c.tier == "thorough" {
 		rounds = 1500
+	}
+	// messages above the 4 KiB granule of the read buffer, same statement and portal names on every connection:
+	// what a connection bound is what it executes, whatever large messages the others send in between
+	bigRounds := 12
+	if c.tier == "thorough" {
+		bigRounds = 200
+	}
+	for r := 0; r < bigRounds; r++ {
+		cfg := g.baseCfg()
+		cfg.limit = 20000
+		q := cfg.parse[len(cfg.parse)-1].query
+		cfg.parse = append(cfg.parse, parseEntry{query: []byte("echo"), stmts: []stmtT{{id: 77, cols: textCols(1), poids: []int{25}, prog: []opT{{kind: "row", vals: []valT{tv("r")}}, {kind: "complete", tag: []byte("SELECT 1")}}, ret: "nil"}}})
+		n := 2 + r%3
+		var cases []*caseT
+		for k := 0; k < n; k++ {
+			val := bytes.Repeat([]byte{byte('A' + k)}, 4097+1000*k+r)
+			msgs := [][]byte{mParse([]byte("s"), []byte("echo"), 0), mBind([]byte("p"), []byte("s"), nil, []bindP{{v: val}}, nil), mSync(),
+				mQuery(append(append([]byte{}, q...), bytes.Repeat([]byte{' '}, 4200+k)...)), mExecute([]byte("p"), 0), mSync(), mDescribe('P', []byte("p")), mExecute([]byte("p"), 0), mSync()}
+			cs := lockCase(0, "big_values", cfg, startupMsg("user", fmt.Sprintf("user%d", k)), msgs)
+			cs.id = fmt.Sprintf("%d.%d", 900000+r, k)
+			cases = append(cases, cs)
+		}
+		// bind everywhere first, then the large messages of all, then the executions (and random orders)
+		var sched []int
+		for phase := 0; phase < 3; phase++ {
+			for k := 0; k < n; k++ {
+				for j := 0; j < []int{4, 1, 5}[phase]; j++ {
+					sched = append(sched, k)
+				}
+			}
+		}
+		if r%2 == 1 {
+			sched = g.schedule(cases)
+		}
+		emitMulti(c, "big_values", cases, sched, false)
 	}
 	for id := 0; id < rounds; id++ {
 		cfg := g.baseCfg()
